@@ -364,13 +364,16 @@ func (v JV) ToNumberES() (x float64, ok bool) {
 			}
 		case "boolobj":
 			return 0, true
-		case "valof":
+		case "valof", "tostr":
+			// ToPrimitive (8.12.8, hint Number): valueOf first; Object.prototype.valueOf returns the
+			// object itself, so for "tostr" the primitive comes from toString - and it is that
+			// primitive (not its string form) that ToNumber converts
 			if len(v.E) == 1 && !v.E[0].IsObject() {
 				return v.E[0].ToNumberES()
 			}
 		case "fn2":
 			return math.NaN(), true
-		case "regexp", "strobj", "tostr", "arraylike", "arraylike-neg", "args":
+		case "regexp", "strobj", "arraylike", "arraylike-neg", "args":
 			s, ok := v.ToStringES()
 			if !ok {
 				return 0, false
